@@ -226,6 +226,7 @@ func main() {
 			}
 			r.MustHandle("GET", "/r/{id}", special, tro...)
 			r.MustHandle("GET", "/alias/{id}", func(c fox.Context) {
+				_ = c.RemoteIP() // as any middleware or handler may do on its own context
 				req2 := c.Request().Clone(c.Request().Context())
 				req2.URL = &url.URL{Path: "/r/" + c.Param("id"), RawQuery: c.Request().URL.RawQuery}
 				if rte, cc, tsr := r.Lookup(c.Writer(), req2); rte != nil && !tsr {
@@ -237,11 +238,12 @@ func main() {
 		cap.min = runtimeMin
 		for bi, b := range behs {
 			// the redirect follows a route request directly: it is served from the pooled context that request just released
-			for _, kind := range []string{"route", "redirect", "noroute", "nomethod", "options", "route-via-lookup", "route-escaped"} {
+			for ki, kind := range []string{"route", "redirect", "noroute", "nomethod", "options", "route-via-lookup", "route-escaped", "route-via-direct-lookup"} {
 				if kind == "redirect" && bi%8 != 0 {
 					continue // the internal redirect handler has a single behaviour
 				}
-				rm := remotes[(bi+ci)%len(remotes)]
+				// consecutive requests come from different remote addresses (also those of different kinds for one behaviour)
+				rm := remotes[(bi+ci+ki)%len(remotes)]
 				one(run, f, plain, cap, cfg, b, kind, rm.addr, rm.ip)
 			}
 		}
@@ -356,6 +358,8 @@ func one(run *kit.Run, f, plain *fox.Router, cap *capture, cfg resolverCfg, b be
 	case "route-via-lookup":
 		f, plain = lookupF, lookupPlain
 		path, recPath = "/alias/42", "/r/42"
+	case "route-via-direct-lookup":
+		f, plain = lookupF, lookupPlain
 	case "route-escaped":
 		// the wire form /r/4%32: net/url keeps the escaped form next to the decoded path; the record names the path
 		rawPath = "/r/4%32"
@@ -384,11 +388,24 @@ func one(run *kit.Run, f, plain *fox.Router, cap *capture, cfg resolverCfg, b be
 	cap.mu.Lock()
 	cap.recs, cap.done = nil, done
 	cap.mu.Unlock()
-	if run.Guard("panic|"+id, map[string]string{"case": id}, func() { f.ServeHTTP(u, req) }) {
+	dispatch := func(r *fox.Router, w http.ResponseWriter, rq *http.Request) {
+		if kind != "route-via-direct-lookup" {
+			r.ServeHTTP(w, rq)
+			return
+		}
+		// no ServeHTTP at all: the caller looks the route up and runs its middleware chain (which holds the Logger) on the
+		// context Lookup returned, with a writer of its own
+		_, tc := fox.NewTestContext(w, rq)
+		if rte, cc, tsr := r.Lookup(tc.Writer(), rq); rte != nil && !tsr {
+			rte.HandleMiddleware(cc)
+			cc.Close()
+		}
+	}
+	if run.Guard("panic|"+id, map[string]string{"case": id}, func() { dispatch(f, u, req) }) {
 		return
 	}
 	req2, u2, _ := mk()
-	plain.ServeHTTP(u2, req2)
+	dispatch(plain, u2, req2)
 	fail := func(format string, a ...any) {
 		run.Violate("record|"+cfg.name+"|"+kind+"|"+firstWords(fmt.Sprintf(format, a...)), fmt.Sprintf("[resolver: %s; behaviour: %s; handler: %s; remote %s] ", cfg.name, b.name, kind, remote)+fmt.Sprintf(format, a...), map[string]string{"case": id})
 	}
@@ -453,7 +470,7 @@ func one(run *kit.Run, f, plain *fox.Router, cap *capture, cfg resolverCfg, b be
 	}
 	// message: client ip of the effective resolver, remote address without resolver, "unknown" on failure
 	eff := cfg.global
-	if kind == "route" || kind == "route-via-lookup" || kind == "route-escaped" {
+	if kind == "route" || kind == "route-via-lookup" || kind == "route-escaped" || kind == "route-via-direct-lookup" {
 		if cfg.route != nil {
 			eff = cfg.route
 		}
